@@ -1,23 +1,31 @@
-import PsyVerif.Lemmas.Halo
+import PsyVerif.Lemmas.HaloPlace
+import PsyVerif.Lemmas.HaloKnown
 /-! # C22 — distributed-memory LFRic code never reads a dirty halo
 
 Model: `PsyVerif/Model/Halo.lean`.  The static side mirrors PSyclone (with the fix
-`fixes/C22-required-max-depth-m1.patch` applied to `required`), the dynamic side
-(`specNeed`, `specAfter`, `stepF`) is the independent specification. -/
+`fixes/C22-required-max-depth-m1.patch`, committed in /repo, applied to `required`), the dynamic
+side (`specNeed`, `specAfter`, `stepF`, `runF`) is the independent specification.
+Lemma files: `Lemmas/Halo.lean` (marks, aggregation of depths), `HaloStep.lean` (placement
+decisions, exchanges), `HaloRun.lean` (running lowered schedules), `HaloSem.lean`,
+`HaloSafe.lean` (the global induction `valid_run`), `HaloPlace.lean` (the placement is valid),
+`HaloKnown.lean` (`known`).
+
+PROVED here (all inputs, no bound on the number of kernels, H, extents):
+* `C22_safe_partial` / `C22_safe_placed` — global safety of the generated schedule of every invoke
+  (default bounds) / of `create_halo_exchanges` for arbitrary loop bounds: no dirty read,
+  recorded ≤ actual wherever observed, for every field, initial state, H, extents;
+* the step lemmas `C22_required_sound`, `C22_required_known_sound`, `C22_hex_establishes`,
+  `C22_hex_covers_readers`, `C22_depth_merge_sound`, `C22_no_halo_access_sound`,
+  `C22_marks_conservative`;
+* the two known defect classes are real on the model (`C22_safe_counterexample*`), hence the full
+  statement `C22_safe_statement` is false and the theorems carry the side conditions
+  `LoopOK` / `KernOK` / `SemOK`.
+
+COVERED ONLY by correspondence with the real code + exhaustive abstract execution of the real
+generated code under `stepF` (harness, H ≤ 5, extents ≤ 2): the schedule edits of the
+transformations (`rcEdit` = redundant computation + `update_halo_exchanges`, `colourEdit`,
+`asyncEdit`, `moveEdit`, OpenMP regions delaying the marks), vector fields, inter-grid kernels. -/
 namespace C22
-
-/-- the defect class of known finding `C22-write-only-kernel-reads-annexed`: a cell-column kernel
-whose updates are all `GH_WRITE`, iterating over owned cells, reads a field that is not known to
-be discontinuous without a stencil, while annexed dofs are not computed redundantly -/
-def writeOnlyPattern (cfg : Cfg) (k : Kern) (b : Bound) (a : Arg) : Bool :=
-  !cfg.annexed && !k.dofKernel && k.allWrites && b.lvl == .owned && !a.disc && a.stencil.isNone
-
-/-- bounds that `LFRicLoop.load` and the transformations can produce: `nannexed` only for dof
-loops with COMPUTE_ANNEXED_DOFS, `ncolour` only for kernels whose updates are all `GH_WRITE`
-(any other kernel on a continuous space iterates into the halo) -/
-def Bound.ok (cfg : Cfg) (k : Kern) (b : Bound) : Prop :=
-  (b.lvl = .annexed → k.dofKernel = true ∧ cfg.annexed = true) ∧
-  (b.coloured = true → b.lvl = .owned → k.allWrites = true) ∧ b.lvl.wf
 
 /-! ## The property -/
 
@@ -58,21 +66,8 @@ theorem C22_no_halo_access_sound (cfg : Cfg) (H : Nat) (env : Nat → Nat) (cont
     (hpat : writeOnlyPattern cfg k b a = false)
     (hb : b.ok cfg k) (hd : a.disc = true → cont = false)
     (hann : cfg.annexed = true → cont = true → s.ann = true) :
-    sat s (specNeed H env cont k b a) = true := by
-  obtain ⟨lvl, col⟩ := b
-  obtain ⟨f, acc, disc, st⟩ := a
-  obtain ⟨dof, args⟩ := k
-  obtain ⟨ann⟩ := cfg
-  obtain ⟨hb1, hb2, hb3⟩ := hb
-  obtain ⟨sa, scd⟩ := s
-  generalize haw : Kern.allWrites ⟨dof, args⟩ = aw at *
-  simp only [Level.wf] at hb3
-  cases acc <;> cases st <;> cases lvl <;> cases dof <;>
-    simp [haloReadAccess, Level.isHalo, Access.reads] at hra <;>
-    simp [specNeed, sat, lvlOf, Access.reads] <;>
-    (try simp [writeOnlyPattern, haw] at hpat) <;> (try simp [haw] at hra) <;>
-    (try simp at hb1) <;> (try simp at hb2) <;> (try simp at hann) <;> (try simp at hd) <;>
-    (cases cont <;> cases disc <;> cases ann <;> cases col <;> cases aw <;> simp_all)
+    sat s (specNeed H env cont k b a) = true :=
+  noHaloAccess_sound cfg H env cont k b a s hra hpat hb hd hann
 
 /-- the finding is real on the model: with annexed dofs dirty, the kernel of the witness reads them -/
 theorem C22_safe_counterexample_write_only :
@@ -83,32 +78,17 @@ theorem C22_safe_counterexample_write_only :
       ⟨0, ⟨false, 0⟩, none⟩ = .error .dirtyRead := by
   rfl
 
-/-- what the previous writer is statically known to leave clean (`gen_mark_halos_clean_dirty`
-starting from a dirty halo) -/
-def cleanAfter (H : Nat) (w : WriteInfo) : Nat := recAfter H w 0
-
-theorem evalDepths_single (H : Nat) (env : Nat → Nat) (d : HaloDepth) :
-    evalDepths H env [d] = evalDepth H env d := by
-  simp [evalDepths]
-
-theorem required_sound (cfg : Cfg) (req : List HaloDepth) (w : WriteInfo) (kn : Bool)
+/-- **`required()` is sound**: when it answers "not required" after a writer `w`, then either
+only annexed dofs are needed and they are clean (always, with COMPUTE_ANNEXED_DOFS, or because `w`
+went one level into the halo), or `w` cleaned the whole halo, or — for every halo depth and all
+extents — what `w` leaves clean covers the aggregated requirement `req`. -/
+theorem C22_required_sound (cfg : Cfg) (req : List HaloDepth) (w : WriteInfo) (kn : Bool)
     (h : required cfg req (some w) = (false, kn)) :
     (∃ r0, req = [r0] ∧ r0.annexedOnly = true ∧
         (cfg.annexed = true ∨ (w.lit = 1 ∧ w.dirtyOuter = true ∧ w.maxDepth = false))) ∨
     (w.maxDepth = true ∧ w.dirtyOuter = false) ∨
-    (∀ H env, evalDepths H env req ≤ cleanAfter H w) := by
-  obtain ⟨l, m, d⟩ := w
-  rcases req with _ | ⟨r0, _ | ⟨r1, rs⟩⟩
-  · -- empty requirement list
-    right; right
-    intro H env
-    simp [evalDepths]
-  · obtain ⟨rl, rv, rm, rm1, ra⟩ := r0
-    simp only [evalDepths_single]
-    cases m <;> cases d <;> cases ra <;> cases rm <;> cases rm1 <;> cases rv <;>
-      simp [required] at h <;> (repeat' (split at h)) <;>
-      simp_all [evalDepth, cleanAfter, recAfter] <;> (try omega)
-  · cases m <;> cases d <;> simp [required] at h <;> (repeat' (split at h)) <;> simp_all
+    (∀ H env, evalDepths H env req ≤ cleanAfter H w) :=
+  required_sound cfg req w kn h
 
 /-- non-vacuity of `required_sound`: a writer to depth 2 of a discontinuous field, a reader of
 literal depth 2: no exchange, and indeed 2 ≤ 2. -/
@@ -121,6 +101,26 @@ example : required ⟨false⟩ [⟨2, none, false, false, false⟩] (some ⟨2, 
 example : required ⟨true⟩ [⟨0, none, false, true, false⟩] (some ⟨1, false, false⟩) = (true, false) := by
   decide
 
+/-- **`known = True` is sound.**  When `required()` answers `(True, True)` for the exchange of
+`f` in front of `rest` after the writer `(k, b, a)` — so the generated `halo_exchange` is NOT
+guarded by `is_dirty` — then for every halo depth `H ≥ 2`, all extents and whatever was recorded
+before, the depth recorded by the writer's `set_dirty`/`set_clean` marks is below the depth of the
+exchange: the guard would have been true, so dropping it does not change the behaviour. -/
+theorem C22_required_known_sound (cfg : Cfg) (f : Nat) (rest : Sched) (k : Kern) (b : Bound)
+    (a : Arg) (h : required cfg (hexDepth f rest) (some (writeInfo k b a)) = (true, true))
+    (hne : hexDepth f rest ≠ []) (H : Nat) (env : Nat → Nat) (r : Nat) (hH : 2 ≤ H)
+    (henv : ExtOK env) :
+    recAfter H (writeInfo k b a) r < evalDepths H env (hexDepth f rest) :=
+  required_known_sound cfg _ _ h (writeInfo_norm k b a) (depthList_norm _) hne H env r hH henv
+
+/-- non-vacuity: `setval_c(f)` over owned dofs followed by a stencil reader of extent 2 -/
+example :
+    let k1 : Kern := ⟨false, [⟨0, .write, true, none⟩, ⟨1, .read, true, some (.lit 2)⟩]⟩
+    required ⟨false⟩ (hexDepth 1 [.loop k1 ⟨.owned, false⟩])
+      (some (writeInfo ⟨true, [⟨1, .write, false, none⟩]⟩ ⟨.owned, false⟩ ⟨1, .write, false, none⟩))
+      = (true, true) ∧ hexDepth 1 [.loop k1 ⟨.owned, false⟩] ≠ [] := by
+  decide
+
 /-- **A halo exchange establishes its depth** whether or not it is guarded by `is_dirty`
 (`known` only matters for efficiency): afterwards the halo is clean to the computed depth, the
 recorded state is still conservative and the state well formed. -/
@@ -129,21 +129,8 @@ theorem C22_hex_establishes (H : Nat) (env : Nat → Nat) (cont : Bool) (f : Nat
     (hwf : s.recorded ≤ s.act.cd) (hann : s.act.cd = 0 ∨ s.act.ann = true)
     (h : stepF H env cont f s (.hex .sync f ds chk) = .ok s') :
     evalDepths H env ds ≤ s'.act.cd ∧ s'.recorded ≤ s'.act.cd ∧
-    (s'.act.cd = 0 ∨ s'.act.ann = true) := by
-  obtain ⟨r, ⟨a, cd⟩, infl⟩ := s
-  simp only [stepF] at h
-  simp at hwf hann
-  have h0 : ¬ (cd < r) := by omega
-  cases infl <;> simp [h0] at h
-  subst h
-  by_cases hd : evalDepths H env ds = 0
-  · simp [exchanged, hd]
-    exact ⟨hwf, hann⟩
-  · cases chk <;> simp [exchanged, hd]
-    · refine ⟨by omega, by omega⟩
-    · by_cases hr : r < evalDepths H env ds
-      · simp [hr, hd]; refine ⟨by omega, by omega⟩
-      · simp [hr]; refine ⟨by omega, by omega, hann⟩
+    (s'.act.cd = 0 ∨ s'.act.ann = true) :=
+  hex_establishes H env cont f ds chk s s' hwf hann h
 
 /-- **Aggregating read requirements is sound, step by step** (`_create_depth_list`): merging the
 requirement `l + var` of one more reader into the list never lowers the depth of the exchange,
@@ -167,11 +154,8 @@ extents (provided the requirement of `r` alone fits into the halo, `ReaderOK`). 
 theorem C22_hex_covers_readers (H : Nat) (env : Nat → Nat) (cont : Bool) (f : Nat) (rest : Sched)
     (r : Kern × Bound × Arg) (hr : r ∈ fwdReaders f rest) (hok : ReaderOK r.2.1 r.2.2)
     (hdeep : infoNeed H env (readInfo r.1 r.2.1 r.2.2) ≤ H) :
-    (specNeed H env cont r.1 r.2.1 r.2.2).depth ≤ evalDepths H env (hexDepth f rest) := by
-  obtain ⟨h1, h2⟩ := readInfo_need H env cont r.1 r.2.1 r.2.2 hok
-  refine Nat.le_trans h1 ?_
-  unfold hexDepth
-  exact depthList_covers H env _ _ (List.mem_map_of_mem hr) h2 hdeep
+    (specNeed H env cont r.1 r.2.1 r.2.2).depth ≤ evalDepths H env (hexDepth f rest) :=
+  hex_covers_readers H env cont f rest r hr hok hdeep
 
 /-- non-vacuity: the exchange of field 2 in the probe invoke serves two stencil readers
 (`max(3, ext+1)`) -/
@@ -192,10 +176,84 @@ theorem C22_safe_counterexample_inc_max_h1 :
       ⟨0, ⟨false, 0⟩, none⟩ = .error .dirtyRead := by
   rfl
 
+/-- **C22_safe for placed schedules (any loop bounds).**  Let `loops` be any list of kernel loops
+(any number; bounds arbitrary: owned / annexed / halo depth `d` / maximum depth, coloured or not)
+and let the exchanges be placed by `create_halo_exchanges` (`placeExchanges`).  Then for every
+field `f`, halo depth `H ≥ 1`, extents `≥ 1`, actual continuity and well-formed initial state,
+executing the generated code (`lower`) under the dynamic specification never reads a dirty halo or
+dirty annexed dofs of `f`, keeps "recorded ≤ actual" wherever the recorded state is observed, and
+ends without an exchange in flight.
+
+Side conditions (`LoopOK`, `SemOK`) — what is EXCLUDED:
+* the two known defect classes: `writeOnlyPattern` (unless COMPUTE_ANNEXED_DOFS) and
+  `incMaxPattern` when `H = 1`;
+* kernels that name a field twice; metadata violating the LFRic rules (`GH_INC`/`GH_READINC` on a
+  discontinuous space, stencil on a modified argument, literal extent 0); a stencil in a loop to
+  the maximum depth (PSyclone refuses it); bounds that `LFRicLoop.load` + redundant computation
+  cannot produce (`nannexed` without COMPUTE_ANNEXED_DOFS, an incrementing cell kernel on a
+  continuous space not going into the halo, `ncolour` for a kernel that is not write-only);
+* configurations whose computed exchange depth for some access exceeds the halo depth `H`;
+* (model scope) vector fields, inter-grid kernels, operators, several kernels per loop. -/
+theorem C22_safe_placed (cfg : Cfg) (H : Nat) (env : Nat → Nat) (cont : Bool) (f : Nat)
+    (loops : List (Kern × Bound)) (init : RState) (hH : 1 ≤ H) (henv : ExtOK env)
+    (hok : ∀ k b, (k, b) ∈ loops → LoopOK cfg k b ∧ SemOK H env cont f k b)
+    (hwf : wfState cfg cont init = true) (hi : init.inflight = none) :
+    SafeF H env cont f (lower cfg (placeExchanges cfg loops)) init :=
+  placed_safe cfg H env cont f loops init hH henv hok hwf hi
+
+/-- **C22_safe for the core fragment** (`_partial`: see the exclusions of `C22_safe_placed`):
+every invoke — any number of kernels / built-ins with read, write, inc, readwrite, readinc
+arguments on continuous or discontinuous spaces, literal or variable stencil extents, the default
+loop bounds of `LFRicLoop.load`, COMPUTE_ANNEXED_DOFS on or off — is safe for every field, every
+initial halo state, every `H` and all extents.  Proof: induction over the schedule
+(`valid_run`) with the invariant `Inv`, using `required_sound`, `hex_establishes`,
+`hex_covers_readers`, `noHaloAccess_sound` and `recAfter_le_specAfter` as step lemmas, and
+validity of the placement (`placeTail_valid`). -/
+theorem C22_safe_partial (cfg : Cfg) (H : Nat) (env : Nat → Nat) (cont : Bool) (f : Nat)
+    (ks : List Kern) (init : RState) (hH : 1 ≤ H) (henv : ExtOK env)
+    (hok : ∀ k ∈ ks, KernOK cfg k ∧ SemOK H env cont f k (defaultBound cfg k))
+    (hwf : wfState cfg cont init = true) (hi : init.inflight = none) :
+    SafeF H env cont f (lower cfg (placeInvoke cfg ks)) init :=
+  invoke_safe cfg H env cont f ks init hH henv hok hwf hi
+
+/-- non-vacuity: `setval_c(f1); kern(f0: gh_inc, f1: gh_read stencil extent 1, f2: gh_read w3
+stencil extent variable)` satisfies the hypotheses for field 1 (continuous, everything dirty on
+entry, `H = 3`), so the theorem applies. -/
+example :
+    SafeF 3 (fun _ => 1) true 1
+      (lower ⟨false⟩ (placeInvoke ⟨false⟩
+        [⟨true, [⟨1, .write, false, none⟩]⟩,
+         ⟨false, [⟨0, .inc, false, none⟩, ⟨1, .read, false, some (.lit 1)⟩,
+                  ⟨2, .read, true, some (.var 7)⟩]⟩]))
+      ⟨0, ⟨false, 0⟩, none⟩ := by
+  apply C22_safe_partial ⟨false⟩ 3 (fun _ => 1) true 1 _ _ (by decide) (fun _ => Nat.le_refl 1)
+    _ (by decide) rfl
+  intro k hk
+  simp only [List.mem_cons, List.not_mem_nil, or_false] at hk
+  rcases hk with rfl | rfl
+  · refine ⟨⟨by decide, ?_⟩, ?_⟩
+    · intro a ha
+      simp only [List.mem_cons, List.not_mem_nil, or_false] at ha
+      subst ha
+      exact ⟨⟨by simp [Arg.accOK], by simp, by simp [Arg.extOK]⟩, by decide⟩
+    · intro a ha
+      simp [argOf] at ha
+      subst ha
+      exact ⟨by simp, by decide, by decide, by decide⟩
+  · refine ⟨⟨by decide, ?_⟩, ?_⟩
+    · intro a ha
+      simp only [List.mem_cons, List.not_mem_nil, or_false] at ha
+      rcases ha with rfl | rfl | rfl <;>
+        exact ⟨⟨by simp [Arg.accOK], by simp, by simp [Arg.extOK]⟩, by decide⟩
+    · intro a ha
+      simp [argOf] at ha
+      subst ha
+      exact ⟨by simp, by decide, by decide, by decide⟩
+
 /-- the full property, for the record: every generated schedule is safe for every field, halo
 depth, extents, continuity and initial state.  It is FALSE of the pinned model (the two
-counterexamples above); what is proved instead are the component theorems
-`required_sound`, `C22_hex_establishes`, `C22_no_halo_access_sound`, `C22_marks_conservative`. -/
+counterexamples above); what is proved instead is `C22_safe_partial` / `C22_safe_placed`, which
+exclude exactly these two defect classes (plus ill-formed inputs). -/
 def C22_safe_statement : Prop :=
   ∀ (cfg : Cfg) (ks : List Kern) (H : Nat) (env : Nat → Nat) (cont : Bool) (f : Nat) (init : RState),
     1 ≤ H → ExtOK env → wfState cfg cont init = true → init.inflight = none →
